@@ -3,7 +3,7 @@ package main
 func init() { register("C07", checkC07) }
 
 func checkC07(r *Run) {
-	r.Explain = "Decides 'no allocation site is reachable' on the documented fast paths: A16 computes the module functions reachable through static calls from the property's method set (func-typed globals followed to their initialiser = default configuration; interface/callback calls are user code), requires every external callee to be on a list of allocation-free standard-library leaves, and requires that no heap site reported by the gc compiler's escape analysis (-gcflags=-m, diagnostics only) lies on a hot line of a reachable function, in both encodings. Cold blocks are defined structurally: error paths (err != nil), arms of marshal-hook type switches other than nil/error/string, the numeric fall-through of Level.String. A9alloc: the nil-receiver region of every exported *Event method contains no allocating instruction (filtered path). A13c: every pooled object whose buffer is spliced is returned to its pool, and a parameter that is put on one path is put on every path (no leak on the filtered path). The package-level enc has the concrete encoder type of the build, so every call through it is static (no escape of slice arguments through dynamic dispatch). The module's writer wrappers (adapter, sync, multi, filtered, trigger) are roots too: their pass-through paths have no heap site. POOLBOUND: events and arrays are kept up to the same capacity (an inverted guard written with < drops the boundary capacity and allocates per event)."
+	r.Explain = "Decides 'no allocation site is reachable' on the documented fast paths: A16 computes the module functions reachable through static calls from the property's method set (func-typed globals followed to their initialiser = default configuration; interface/callback calls are user code), requires every external callee to be on a list of allocation-free standard-library leaves, and requires that no heap site reported by the gc compiler's escape analysis (-gcflags=-m, diagnostics only) lies on a hot line of a reachable function, in both encodings. Cold blocks are defined structurally: error paths (err != nil), arms of marshal-hook type switches other than nil/error/string, the numeric fall-through of Level.String. A9alloc: the nil-receiver region of every exported *Event method contains no allocating instruction (filtered path). A13c: every pooled object whose buffer is spliced is returned to its pool, and a parameter that is put on one path is put on every path (no leak on the filtered path). The package-level enc has the concrete encoder type of the build, so every call through it is static (no escape of slice arguments through dynamic dispatch). The module's writer wrappers (adapter, sync, multi, filtered, trigger) are roots too: their pass-through paths have no heap site. POOLBOUND: events and arrays are kept up to the same capacity (an inverted guard written with < drops the boundary capacity and allocates per event). A16 fixed-scratch: no fast-path function appends into a slice of a fixed-size local array (long output would move to the heap)."
 	r.NotDec = "append growth beyond the pooled capacity (excluded by the property), allocations inside the Go runtime (sync.Pool warm-up, stack growth), user code behind interfaces. The allow-list of standard-library leaves is part of the trusted base."
 	r.Assume = []string{"gc -m diagnostics are complete for heap sites in the compiled packages", "allow-listed standard-library functions do not allocate"}
 	r.Trusted = []string{"cmd/compile escape analysis (-gcflags=-m)", "allow-list of standard-library leaves"}
